@@ -978,6 +978,52 @@ def check_main_loop(prog: Program, res: Result) -> None:
     if n_paths < 4:
         res.unrecognised("R-PAIRED-STATE", f"{fi.short}: loop paths",
                          fi.loc(loop), f"only {n_paths} feasible paths found")
+    # two empty graphs: the matching order is empty; its first element may
+    # only be read after an emptiness guard (the empty mapping is the one
+    # isomorphism of the empty graph)
+    res.rule("R-EMPTY-ORDER", "vf2pp_all_isomorphisms reads node_order[0] only "
+             "after a guard that handles an empty matching order (two graphs "
+             "without atoms have exactly one isomorphism, the empty mapping)")
+    orders = [n.targets[0].id if isinstance(n, ast.Assign) else n.target.id
+              for n in ast.walk(fi.node)
+              if isinstance(n, (ast.Assign, ast.AnnAssign))
+              and isinstance(n.value, ast.Call)
+              and call_name(n.value) == "_matching_order"
+              and isinstance(n.targets[0] if isinstance(n, ast.Assign)
+                             else n.target, ast.Name)]
+    if len(orders) != 1:
+        res.unrecognised("R-EMPTY-ORDER", f"{fi.short}: matching order",
+                         fi.loc(), "call of _matching_order(params)")
+    else:
+        O = orders[0]
+        firsts = [n for n in ast.walk(fi.node) if isinstance(n, ast.Subscript)
+                  and norm(n.value) == O and norm(n.slice) == "0"]
+        guard = None
+        for st in fi.node.body:
+            if isinstance(st, ast.If) and norm(st.test) in (
+                    f"not {O}", f"len({O}) == 0", f"{O} == []",
+                    f"termination_length == 0", f"len(g1) == 0",
+                    f"not g1.atoms", f"g1.n_atoms == 0") and st.body and \
+                    isinstance(st.body[-1], ast.Return):
+                guard = st
+        inst = f"{fi.short}: {O}[0] is read under an emptiness guard"
+        if not firsts:
+            res.ok("R-EMPTY-ORDER", inst, fi.loc(), "never indexed with 0")
+        elif guard is not None and all(guard.lineno < f.lineno for f in firsts):
+            yields = [y for y in ast.walk(guard) if isinstance(y, ast.Yield)]
+            if yields:
+                res.ok("R-EMPTY-ORDER", inst, fi.loc(guard))
+            else:
+                res.bad("R-EMPTY-ORDER", f"{fi.short}: empty graphs yield nothing",
+                        fi.loc(guard), f"{inst}: the guard returns without "
+                        "yielding the empty mapping, so the empty graph has "
+                        "no automorphism", instance=inst)
+        else:
+            res.bad("R-EMPTY-ORDER", f"{fi.short}: {O}[0] unguarded",
+                    fi.loc(firsts[0]), f"{inst}: `{norm(firsts[0])}` raises "
+                    "IndexError for two graphs without atoms (reachable "
+                    "through vf2pp_all_isomorphisms(G(), G()) and "
+                    "topological_symmetry_number(G()))", instance=inst)
     # yields
     ys = [n for n in ast.walk(fi.node) if isinstance(n, ast.Yield)]
     if not ys:
@@ -985,6 +1031,9 @@ def check_main_loop(prog: Program, res: Result) -> None:
     for y in ys:
         t = norm(y.value)
         inst = f"{fi.short}: yield {t}"
+        if t in ("{}", "dict()"):
+            res.ok("R-YIELD-FRESH", inst, fi.loc(y))
+            continue
         if t in ("mapping.copy()", "dict(mapping)", "{**mapping}",
                  "dict(mapping.items())", "copy(mapping)",
                  "copy.copy(mapping)"):
